@@ -150,7 +150,7 @@ func c08Run(c c08Case) (fail *vlib.Failure, blockedAcquires int) {
 		for _, n := range outstanding {
 			pending += n
 		}
-		giveUp := time.Now().Add(c08Patience)
+		giveUp := vlib.StartPatience(c08Patience)
 		for pending > 0 {
 			atomic.StoreUint32(&l.state, 0)
 			select {
@@ -158,7 +158,7 @@ func c08Run(c c08Case) (fail *vlib.Failure, blockedAcquires int) {
 				pending--
 			case <-time.After(200 * time.Microsecond):
 			}
-			if time.Now().After(giveUp) {
+			if giveUp.Expired() {
 				// a goroutine is stuck inside Acquire although the lock word is
 				// free: it cannot be recovered, report and leave the process
 				if fail == nil {
@@ -174,13 +174,31 @@ func c08Run(c c08Case) (fail *vlib.Failure, blockedAcquires int) {
 		wg.Wait()
 	}()
 
+	// wait gives a completion the time d to arrive. The short window (an Acquire that must stay
+	// blocked) is plain wall-clock time; the long one (an operation that may proceed and does
+	// not) is a vlib.Patience: wall-clock AND CPU time, so that a stalled machine is not taken
+	// for a blocked lock.
 	wait := func(d time.Duration) (c08Res, bool) {
-		select {
-		case r := <-done:
-			outstanding[r.w]--
-			return r, true
-		case <-time.After(d):
-			return c08Res{}, false
+		if d < time.Second {
+			select {
+			case r := <-done:
+				outstanding[r.w]--
+				return r, true
+			case <-time.After(d):
+				return c08Res{}, false
+			}
+		}
+		patience := vlib.StartPatience(d)
+		for {
+			select {
+			case r := <-done:
+				outstanding[r.w]--
+				return r, true
+			case <-time.After(10 * time.Millisecond):
+				if patience.Expired() {
+					return c08Res{}, false
+				}
+			}
 		}
 	}
 	// noCompletion watches for a completion that must not happen.
@@ -461,7 +479,7 @@ func c08RunStress(c c08Stress) (fail *vlib.Failure, contention int64) {
 	// progress watchdog: every critical section ends with a Release, so some
 	// worker must keep completing critical sections; c08Patience without a
 	// single one means blocked acquires.
-	lastProgress, lastSeen := time.Now(), int64(-1)
+	stall, lastSeen := vlib.StartPatience(c08Patience), int64(-1)
 watch:
 	for {
 		select {
@@ -470,13 +488,14 @@ watch:
 		case <-time.After(20 * time.Millisecond):
 		}
 		if p := atomic.LoadInt64(&progress); p != lastSeen {
-			lastSeen, lastProgress = p, time.Now()
+			lastSeen = p
+			stall.Reset()
 			continue
 		}
-		if time.Since(lastProgress) > c08Patience {
+		if stall.Expired() {
 			// let the goroutines out before reporting
 			f := vlib.Failf("stress run made no progress for %v (acquires blocked although the lock is released after every critical section)", c08Patience)
-			giveUp := time.Now().Add(c08Patience)
+			giveUp := vlib.StartPatience(c08Patience)
 			for {
 				atomic.StoreUint32(&l.state, 0)
 				select {
@@ -484,7 +503,7 @@ watch:
 					return f, 0
 				case <-time.After(100 * time.Microsecond):
 				}
-				if time.Now().After(giveUp) {
+				if giveUp.Expired() {
 					vlib.Die("C08", c, f)
 				}
 			}
